@@ -50,6 +50,11 @@ package asp
 // listlike: an ordinary list or a frozen one (what subinclude and CONFIG hand out). Every builtin that
 // takes a list must take both: its "must be a list" assertion may not fail for a listlike argument.
 //@ spec listlike(x pyObject) bool = dyntype(x, pyList) || dyntype(x, pyFrozenList)
+//@ func asList
+//@   modifies nothing
+//@   ensures exactly_the_listlike [C18]: result1 == listlike(obj)
+//@   ensures items_of_a_list [C18]: dyntype(obj, pyList) ==> result0 == unbox(obj, pyList)
+//@   ensures items_of_a_frozen_list [C18]: dyntype(obj, pyFrozenList) ==> result0 == unbox(obj, pyFrozenList).pyList
 //@ func filter
 //@   opt nopanic=off
 //@   opt panics=allowed
